@@ -108,7 +108,7 @@ impl Prop for C03P {
         vec![Profile::Chk, Profile::Wrap]
     }
     fn units(&self, tier: Tier) -> Vec<String> {
-        let n = tier.pick(4, 5);
+        let n = tier.pick(4, 6);
         let mut v = Vec::new();
         for (c, r) in shapes(n) {
             for ch in chains_for(1) {
@@ -163,7 +163,7 @@ impl Prop for C03P {
             .into()
     }
     fn bound(&self, tier: Tier) -> String {
-        format!("parents up to {0}x{0} for nesting depth 1-2, up to {1} for depth 3; all argument tuples in (0..=dim+1)^4 plus huge values", tier.pick(4, 5), tier.pick("the 3x3 parent", "4x4"))
+        format!("parents up to {0}x{0} for nesting depth 1-2, up to {1} for depth 3; all argument tuples in (0..=dim+1)^4 plus huge values", tier.pick(4, 6), tier.pick("the 3x3 parent", "4x4"))
     }
 }
 
@@ -253,7 +253,7 @@ fn run_chain_unit(chain: &str, pc: usize, pr: usize, prefix: &[Win], ctx: &mut C
 }
 
 fn run_direct(which: &str, ctx: &mut Ctx) {
-    let n = ctx.tier.pick(4, 5);
+    let n = ctx.tier.pick(4, 6);
     let mut dims: Vec<(usize, usize)> = Vec::new();
     if which == "huge" {
         let hs: Vec<usize> = huge_fixed();
